@@ -22,7 +22,7 @@ from util import TensorProduct, Hamiltonian, TTNO, TTNS, Node
 METHODS = ["SGE", "BIPARTITE", "TREE", "BASE"]
 KF_TREE = "C01-tree-coefficients"
 KF_DUP = "C01-duplicate-terms"
-IMPORTS = ("From Coq Require Import List Arith Bool QArith. From PTN Require Import Tree.RTree SD.Model. "
+IMPORTS = ("From Coq Require Import List Arith Bool QArith. From PTN Require Import Tree.RTree SD.Model SD.Core. "
            "Import ListNotations.")
 TOL = 1e-9
 
@@ -53,8 +53,16 @@ def nid(i):
     return f"n{i}"
 
 
+# operator names whose concatenations are ambiguous ("n"+"nn" == "nn"+"n"): used instead of A<l>_2 on the
+# dimension-2 sites of the cases with labelset == "amb" (anything keyed by concatenated label text must not collide)
+AMB = ["n", "nn", "nnn", "x", "xx"]
+AMB_DIM = 2
+
+
 def label_code(lab: str) -> int:
-    """'I<d>' -> d ; 'A<l>_<d>' -> 10*(l+1)+d"""
+    """'I<d>' -> d ; 'A<l>_<d>' -> 10*(l+1)+d ; ambiguous names -> 41.."""
+    if lab in AMB:
+        return 41 + AMB.index(lab)
     if lab.startswith("I"):
         return int(lab[1:])
     l, d = lab[1:].split("_")
@@ -164,6 +172,9 @@ def build_ref(case):
 def build_ham(case):
     nprs = np.random.RandomState((case["seed"] * 7 + 1) % (2 ** 31))
     conv = util.rand_conv(nprs, sorted(set(case["phys"])), case.get("nlabels", 3))
+    if case.get("labelset") == "amb":
+        for lab in AMB:
+            conv[lab] = util.rand_tensor(nprs, (AMB_DIM, AMB_DIM))
     cm = {"1": 1}
     for k in range(1, 5):
         cm[f"g{k}"] = complex(nprs.standard_normal(), nprs.standard_normal())
@@ -456,7 +467,132 @@ def random_phys(rng, n, cap):
     return phys
 
 
-def product_terms(rng, phys, coefmode, nlabels, physical_only, seen, budget):
+def site_labels(phys, s_, nlabels, physical_only=False, amb=False):
+    """non-identity labels available on site s_"""
+    d = phys[s_]
+    if amb and d == AMB_DIM:
+        return AMB[:3] if physical_only else AMB[:max(3, nlabels + 2)]
+    nl = max(1, nlabels if not physical_only else min(nlabels, d * d - 1))
+    return [f"A{l}_{d}" for l in range(nl)]
+
+
+def ambiguous_pairs(rng, ch, phys, seen, coefmode):
+    """two terms that differ only by exchanging two labels with ambiguous concatenation between a non-root node and
+    one of its leaf children (or between two sibling leaves of a non-root node)"""
+    n = len(ch)
+    par = parents_of(ch)
+    cands = []
+    for m in range(1, n):
+        leaves = [c for c in ch[m] if not ch[c] and phys[c] == AMB_DIM]
+        if phys[m] == AMB_DIM:
+            cands += [(m, a) for a in leaves]
+        cands += [(a, b) for a in leaves for b in leaves if a < b]
+    if not cands:
+        return []
+    u, v = rng.choice(cands)
+    fam = rng.choice([["n", "nn", "nnn"], ["x", "xx"]])
+    l1, l2 = rng.sample(fam, 2)
+    rest = []
+    for s_ in range(n):
+        if s_ not in (u, v) and phys[s_] > 1 and rng.random() < 0.4:
+            rest.append([s_, rng.choice(site_labels(phys, s_, 3, amb=True))])
+    out = []
+    for a, b in ((l1, l2), (l2, l1)):
+        ops = [[u, a], [v, b]] + [list(x) for x in rest]
+        rng.shuffle(ops)
+        full = tuple(dict((i, lab) for i, lab in ops).get(i, f"I{phys[i]}") for i in range(n))
+        if full in seen:
+            continue
+        seen.add(full)
+        fr = Fraction(1) if coefmode == "unit" else Fraction(rng.choice([1, 2, -1, 3]), rng.choice([1, 2]))
+        out.append([fr.numerator, fr.denominator, "1" if coefmode in ("unit", "frac") else rng.choice(["1", "g1"]), ops])
+    return out
+
+
+def gamma_terms(rng, ch, phys, nlabels, seen, physical_only=False, amb=False):
+    """a random SYMBOLIC coefficient matrix across one edge: rows = operator strings U_i below the edge, columns =
+    strings V_j on the other side, entry (i, j) = rational x symbol (g1..g4, or a plain rational, or 0), every non-zero
+    entry its own term U_i (x) V_j.  Columns are 'shared' (one symbol for all rows), 'split' (two symbols) or 'free'; some
+    rows repeat another row's symbols with proportional rationals outside the first column: rows that the elimination
+    tries to combine through a shared symbol and has to abandon at a later column, next to rows that do compress."""
+    n = len(ch)
+    edges = []
+    for c in range(1, n):
+        S = preorder(ch, c)
+        R = [i for i in range(n) if i not in S]
+        if any(phys[i] > 1 for i in S) and any(phys[i] > 1 for i in R):
+            edges.append((c, S, R))
+    if not edges:
+        return []
+    c, S, R = rng.choice(edges)
+
+    def strings(side, want):
+        out, tries = [], 0
+        sites = [i for i in side if phys[i] > 1] if physical_only else list(side)
+        while len(out) < want and tries < 60:
+            tries += 1
+            st = {}
+            for i in sites:
+                if rng.random() < (0.75 if phys[i] > 1 else 0.2):
+                    st[i] = rng.choice(site_labels(phys, i, max(nlabels, 2), physical_only, amb))
+            key = tuple(sorted(st.items()))
+            if key not in [k for k, _ in out]:
+                out.append((key, st))
+        return [st for _k, st in out]
+    U = strings(S, rng.choice([2, 3, 3, 4]))
+    V = strings(R, rng.choice([2, 3, 3, 4]))
+    if len(U) < 2 or len(V) < 2:
+        return []
+    m, k = len(U), len(V)
+    syms = ["g1", "g2", "g3", "g4"]
+    rng.shuffle(syms)
+    G = [[None] * k for _ in range(m)]
+    for j in range(k):
+        mode = "shared" if (j == 0 and rng.random() < 0.8) else rng.choice(["shared", "split", "free", "free"])
+        pool = {"shared": syms[:1], "split": rng.sample(syms, 2), "free": syms + ["1"]}[mode]
+        if mode == "shared" and rng.random() < 0.2:
+            pool = ["1"]
+        for i in range(m):
+            if j > 0 and rng.random() < 0.2:
+                continue
+            G[i][j] = (Fraction(rng.choice([1, 1, 2, -1, 3, -2]), rng.choice([1, 1, 2])), rng.choice(pool))
+    if rng.random() < 0.5:
+        # template: one symbol down the first column; row 0 carries other symbols than the remaining rows in the later
+        # columns, and the remaining rows are multiples of one pattern there
+        a = syms[0]
+        pat = [None] + [(Fraction(rng.choice([1, 2, -1, 3]), rng.choice([1, 2])), rng.choice(syms[1:])) if (j == 1 or rng.random() < 0.6) else None
+                        for j in range(1, k)]
+        for i in range(m):
+            G[i][0] = (Fraction(rng.choice([1, 1, 2, -1, 3]), rng.choice([1, 1, 2])), a)
+            f = Fraction(rng.choice([1, -1, 2, -2, 3]), rng.choice([1, 1, 2]))
+            for j in range(1, k):
+                if i == 0:
+                    others = [x for x in syms[1:] if pat[j] is None or x != pat[j][1]]
+                    G[0][j] = (Fraction(rng.choice([1, 2, -1]), rng.choice([1, 2])), rng.choice(others)) if (j == 1 or rng.random() < 0.6) else None
+                else:
+                    G[i][j] = None if pat[j] is None else (pat[j][0] * f, pat[j][1])
+    for _ in range(rng.choice([0, 1, 1, 2])):            # rows proportional to another row outside the first column
+        i, i2 = rng.sample(range(m), 2)
+        r = Fraction(rng.choice([1, -1, 2, -2, 3]), rng.choice([1, 1, 2]))
+        for j in range(1, k):
+            G[i2][j] = None if G[i][j] is None else (G[i][j][0] * r, G[i][j][1])
+    out = []
+    for i in range(m):
+        for j in range(k):
+            if G[i][j] is None:
+                continue
+            ops = [[a, b] for a, b in list(U[i].items()) + list(V[j].items())]
+            rng.shuffle(ops)
+            full = tuple(dict((a, b) for a, b in ops).get(q, f"I{phys[q]}") for q in range(n))
+            if full in seen or not ops:
+                continue
+            seen.add(full)
+            fr, g = G[i][j]
+            out.append([fr.numerator, fr.denominator, g, ops])
+    return out
+
+
+def product_terms(rng, phys, coefmode, nlabels, physical_only, seen, budget, amb=False):
     """expansion of  c * prod_{s in S} (w_s0 A_s0 + w_s1 A_s1): terms whose coefficient matrices across every
     edge have low rank, so that the Gaussian elimination has real row/column operations to do"""
     n = len(phys)
@@ -467,9 +603,9 @@ def product_terms(rng, phys, coefmode, nlabels, physical_only, seen, budget):
     sites = rng.sample(sites_all, k)
     alts = []
     for s_ in sites:
-        nl = max(1, min(nlabels if nlabels > 1 else 2, phys[s_] * phys[s_] - 1 if physical_only else 3))
-        labs = rng.sample(range(nl), min(nl, rng.choice([1, 2, 2])))
-        alts.append([(f"A{l}_{phys[s_]}", Fraction(rng.choice([1, 1, 2, -1, 3]), rng.choice([1, 1, 2])) if coefmode != "unit" else Fraction(1)) for l in labs])
+        avail = site_labels(phys, s_, nlabels if nlabels > 1 else 2, physical_only, amb)
+        labs = rng.sample(avail, min(len(avail), rng.choice([1, 2, 2])))
+        alts.append([(lab, Fraction(rng.choice([1, 1, 2, -1, 3]), rng.choice([1, 1, 2])) if coefmode != "unit" else Fraction(1)) for lab in labs])
     if coefmode in ("unit", "frac"):
         g = "1"
     else:
@@ -490,14 +626,21 @@ def product_terms(rng, phys, coefmode, nlabels, physical_only, seen, budget):
     return out
 
 
-def random_terms(rng, phys, nterms, coefmode, dupmode, nlabels, distinct_strings=False, physical_only=False, product=False):
-    """terms as [num, den, symbol, [[node, label], ...]]"""
+def random_terms(rng, phys, nterms, coefmode, dupmode, nlabels, distinct_strings=False, physical_only=False, product=False,
+                 amb=False, gamma_on=None):
+    """terms as [num, den, symbol, [[node, label], ...]]; gamma_on = children lists of the tree: start with a random
+    symbolic coefficient matrix across one edge (gamma_terms)"""
     n = len(phys)
     sites_all = [i for i in range(n) if not (physical_only and phys[i] == 1)]
     terms, seen = [], set()
+    if gamma_on is not None:
+        terms += gamma_terms(rng, gamma_on, phys, nlabels, seen, physical_only, amb)
+        nterms = max(nterms, len(terms) + rng.choice([0, 0, 1, 2]))
+    if amb and gamma_on is None and not physical_only and rng.random() < 0.8:
+        terms += ambiguous_pairs(rng, amb, phys, seen, coefmode)
     if product:
         for _ in range(rng.choice([1, 1, 2])):
-            terms += product_terms(rng, phys, coefmode, nlabels, physical_only, seen, max(0, nterms - len(terms)))
+            terms += product_terms(rng, phys, coefmode, nlabels, physical_only, seen, max(0, (nterms if gamma_on is None else len(terms) + 4) - len(terms)), amb=bool(amb))
 
     def coef():
         if coefmode == "unit":
@@ -540,8 +683,7 @@ def random_terms(rng, phys, nterms, coefmode, dupmode, nlabels, distinct_strings
             if not physical_only and rng.random() < 0.08:
                 ops.append([s, f"I{phys[s]}"])
             else:
-                nl = nlabels if not physical_only else min(nlabels, phys[s] * phys[s] - 1)
-                ops.append([s, f"A{rng.randrange(nl)}_{phys[s]}"])
+                ops.append([s, rng.choice(site_labels(phys, s, nlabels, physical_only, bool(amb)))])
         if not ops and not physical_only:
             s = rng.randrange(n)
             ops = [[s, f"A0_{phys[s]}"]]
@@ -613,7 +755,10 @@ class C01(Prop):
     rule = ("a (tree, Hamiltonian) group = random rooted tree of 1..7 nodes (random child order, dims in {1,2,3} incl. dimension-1 nodes, "
             "random attach order; all ordered shapes <= 5 nodes in thorough), 1..8 terms with supports of any size, shared labels, explicit "
             "identities, coefficient mode unit/frac/sym/symshared, duplicate mode none/dup/prop/mixed, 35% with expanded products of local sums "
-            "(low-rank coefficient matrices: the Gaussian elimination does real row/column operations); every group is run with all four "
+            "(low-rank coefficient matrices: the Gaussian elimination does real row/column operations), 25% start from a random SYMBOLIC "
+            "coefficient matrix across one edge (entries rational x g1..g4 / rational / 0, one term per entry, shared/split/free symbol columns, rows "
+            "proportional outside the first column: abandoned row additions next to accepted compressions), 20% use operator names with ambiguous "
+            "concatenations (n, nn, nnn, x, xx) incl. label-exchanged term pairs on a node and its leaf child; every group is run with all four "
             "TTNOFinder methods (one case per method) plus random well-indexed diagrams injected into TTNO.from_state_diagram and a malformed "
             "stream (term on an unknown site). non-trivial = >= 2 nodes and >= 2 terms; "
             "distinct by case content")
@@ -629,6 +774,19 @@ class C01(Prop):
               "tree and every term list, duplicates and proportional terms included (C01_sum_states_adds, C01_base_exact, C01_base_exact_listwise)"),
         ("F", "padding_identity / padding_rejects: the padded term has the term's own label on its sites and the identity label of the node's dimension elsewhere; "
               "padding fails exactly when a term touches a site that is no node (C01_padding_identity, C01_padding_rejects)"),
+        ("F", "algebraic core of the compressing pipelines (SD/Core.v): equality of coefficient functions is a congruence for the polynomial product "
+              "(C01_pmul_congruence); combine_subtrees: identifying two vertices of one edge whose child-side sub-diagrams denote the same polynomial "
+              "(redirect the parent-side hyperedges, erase the second sub-diagram) preserves sd_denote for every tree and diagram, and keeps a certified "
+              "diagram certified (C01_merge_redirect_sound, C01_merge_equal_subtrees_sound under the privacy precondition erase_subtree relies on, "
+              "C01_merge_keeps_exact); cut_and_optimise/_reconnect_hyperedges: over any commutative ring, Gamma = L*Gamma_u*R and a vertex cover of the "
+              "support of Gamma_u => sum_ij u_i Gamma_ij v_j = sum over the new row-/column-cover vertices, every covered entry used exactly once, rows first "
+              "(C01_cut_regroup_sound, C01_cover_assignment_unique), composed with C13 for the triple gaussian_elimination returns (C01_cut_regroup_sge). "
+              "These are theorems about the model operations; the pipeline driver (BFS order, hashing, V classes, copies) is not modelled, so the methods' "
+              "exactness stays per instance (clause I)"),
+        ("F", "structure_preserved: the model of TTNO.from_state_diagram/_rec_zero_ttno (obtain_tensor_shape, add_child_to_parent with its checks and leg moves) "
+              "succeeds on every well-formed diagram whose labels are in the operator table and yields exactly the tree's identifiers in pre-order, parents, "
+              "children in order, legs (parent, children..., out, in), bond dimension = number of vertices of the edge, physical dimension = table entry of the "
+              "node's first label (C01_structure_preserved); tied per instance: ttno_shape of the exported diagram == nodes/tensor shapes of the real TTNO, exact"),
         ("I", "for every explored (tree, Hamiltonian, method) the diagram built by the implementation (all four methods), exported through its public "
               "attributes, satisfies sd_wf and sd_check by vm_compute => kernel-checked exactness of that diagram; instances of the recorded findings are "
               "refuted by sd_refute (C01_refuted_duplicate_terms, C01_refuted_tree_coefficients are two of them, stated as theorems)"),
@@ -679,9 +837,18 @@ class C01(Prop):
             nterms = rng.choice([1, 1, 2, 2, 3, 3, 4, 5, 6, 7, 8])
             nlabels = rng.choice([1, 2, 3])
             product = rng.random() < 0.35
-            terms = random_terms(rng, phys, nterms, coefmode, dupmode, nlabels, product=product)
-            groups.append({"children": ch, "phys": phys, "terms": terms, "nlabels": 3, "coefmode": coefmode,
-                           "dupmode": dupmode, "struct": "product" if product else "random", "seed": rng.randrange(10 ** 6)})
+            amb = rng.random() < 0.2          # operator names with ambiguous concatenations on the dimension-2 sites
+            if amb:
+                phys = [min(d, AMB_DIM) for d in phys]
+            gamma = n >= 2 and rng.random() < 0.25      # a random symbolic coefficient matrix across one edge
+            if gamma:
+                coefmode, dupmode = "sym", rng.choice(["none", "none", "none", "prop"])
+                product = rng.random() < 0.5
+            terms = random_terms(rng, phys, nterms, coefmode, dupmode, nlabels, product=product, amb=(ch if amb else None),
+                                 gamma_on=(ch if gamma else None))
+            struct = ("gamma+product" if product else "gamma") if gamma else ("product" if product else "random")
+            groups.append({"children": ch, "phys": phys, "terms": terms, "nlabels": 3, "coefmode": coefmode, "dupmode": dupmode,
+                           "struct": struct, "labelset": "amb" if amb else "std", "seed": rng.randrange(10 ** 6)})
         return groups
 
     def generate(self, ctx, stream, budget_scale=1):
@@ -722,6 +889,7 @@ class C01(Prop):
             c["coef:" + x.get("coefmode", "?")] += 1
             c["dup:" + x.get("dupmode", "?")] += 1
             c["struct:" + x.get("struct", "random")] += 1
+            c["labels:" + x.get("labelset", "std")] += 1
             f = case_features(x) if x["kind"] == "ham" else {}
             c["exact_duplicates"] += bool(f.get("exact_dup"))
             c["same_string_not_dup"] += bool(f.get("same_string") and not f.get("exact_dup"))
@@ -789,6 +957,9 @@ class C01(Prop):
             return ob
         ex = export_sd(captured["sd"], case)
         ob["sd"] = ex
+        # ---- ttno_shape tie (C01_structure_preserved) BEGIN: dimension of the conversion-dictionary entry of every label
+        ob["label_dims"] = {lab: int(conv[lab].shape[0]) for lab in sorted({h[2] for h in ex["hes"]}) if lab in conv}
+        # ---- ttno_shape tie END
         if ex["malformed"]:
             return ob
         pos, _cnt = export_positions(ex, case)
@@ -843,15 +1014,20 @@ class C01(Prop):
             ex = ob.get("sd") if isinstance(ob, dict) else None
             have = bool(ex) and not ex.get("malformed")
             d = coq_sd(ex) if have else "sd_empty"
+            # ---- ttno_shape tie BEGIN: the model's TTNO skeleton (SD/Core.v ttno_shape) for the exported diagram
+            tbl = coq_list(sorted((label_code(k), v) for k, v in (ob.get("label_dims") or {}).items()) if have else [],
+                           lambda kv: f"({kv[0]}, {kv[1]})")
+            shp = f"ttno_shape (pd_of {tbl}) t d"
+            # ---- ttno_shape tie END
             if c["kind"] == "inject":
-                exprs.append(f"(let t := {coq_tree(c)} in let d := {d} in (sd_wf t d, sd_poly t d))")
+                exprs.append(f"(let t := {coq_tree(c)} in let d := {d} in (sd_wf t d, sd_poly t d, {shp}))")
                 continue
             base = "Some (sd_canon t (sd_base t H))" if c["method"] == "BASE" else "(@None canon)"
             exprs.append(
                 f"(let t := {coq_tree(c)} in let d := {d} in "
                 f"match pad_ham idlab_std {coq_dims(c)} t {coq_uterms(c)} with "
-                f"| Some H => (true, map (fun tm => map (snd tm) (ids t)) H, sd_wf t d, sd_check t H d, sd_diff t H d, {base}, sd_refute t H d) "
-                f"| None => (false, [], false, false, None, @None canon, false) end)")
+                f"| Some H => (true, map (fun tm => map (snd tm) (ids t)) H, sd_wf t d, sd_check t H d, sd_diff t H d, {base}, sd_refute t H d, {shp}) "
+                f"| None => (false, [], false, false, None, @None canon, false, {shp}) end)")
         vals = coq_eval(ctx, IMPORTS, exprs, shard=40, scope="nat_scope")
         # per-instance obligations: the exported diagram is well-formed and certified exact
         known = {k["id"] for k in load_known() if k.get("property") == self.id and k.get("status") == "known"}
@@ -887,9 +1063,12 @@ class C01(Prop):
                 return f"from_state_diagram raised {ob['exception']} on a well-indexed diagram"
             if ob["sd"]["malformed"]:
                 return f"harness: injected diagram exported as malformed: {ob['sd']['malformed']}"
-            wf, poly = mo
+            wf, poly, shape = mo
             if not wf:
                 return "sd_wf fails on an injected well-indexed diagram"
+            msg = self._shape_tie(ob, shape)
+            if msg:
+                return msg
             # Coq prints ((n, d), (syms, labels)) as the left-nested tuple (n, d, (syms, labels))
             mine = sorted([((a[0], a[1]), (list(a[2][0]), list(a[2][1]))) for a in poly], key=lambda a: (a[1][1], a[1][0]))
             if mine != ob["poly"]:
@@ -900,7 +1079,7 @@ class C01(Prop):
             if ob.get("sel_dev", 1) > tol * max(1, ob["n_selections"]):
                 return f"contraction of the filled TTNO differs from the diagram's selection sum by {ob.get('sel_dev')}"
             return None
-        padok, padded, wf, chk, diff, base, refuted = mo
+        padok, padded, wf, chk, diff, base, refuted, shape = mo
         if case["kind"] == "malformed":
             if padok:
                 return "model pads a term on an unknown site"
@@ -929,6 +1108,9 @@ class C01(Prop):
             return f"exported diagram is not a state diagram of the tree: {ex['malformed']}"
         if not wf:
             return "sd_wf fails on the exported diagram (vertex/hyperedge cross references inconsistent)"
+        msg = self._shape_tie(ob, shape)
+        if msg:
+            return msg
         if chk != ob["py_exact"]:
             return f"sd_check = {chk} but the flat selection sum computed in Python says exact = {ob['py_exact']}"
         if refuted == chk:
@@ -944,6 +1126,21 @@ class C01(Prop):
             if mc != ic:
                 return f"BASE diagram differs from the model's construction: model {mc} implementation {ic}"
         return None
+
+    # ---- ttno_shape tie (C01_structure_preserved) BEGIN
+    @staticmethod
+    def _shape_tie(ob, shape):
+        """exact: the model's skeleton (creation order, identifier, parent, ordered children, tensor shape) of the
+        exported diagram == nodes / tensors of the TTNO the implementation built"""
+        nodes = unsome(shape)
+        if shape is None or nodes is None:
+            return "ttno_shape = None: the model's from_state_diagram fails on a diagram the implementation accepted"
+        mine = [[nid(v), (nid(unsome(p)) if p is not None else None), [nid(c) for c in cs], list(sh)] for v, p, cs, sh in nodes]
+        impl = [[k, ob["structure"][k][0], list(ob["structure"][k][1]), list(ob["shapes"][k])] for k in ob["structure"]]
+        if mine != impl:
+            return f"TTNO skeleton: model ttno_shape gives {mine}, implementation has {impl}"
+        return None
+    # ---- ttno_shape tie END
 
     @staticmethod
     def _impl_canon(case, ex):
